@@ -1,9 +1,15 @@
 """C16 — envelope wire format: Model/Wire.v vs internal/message + utils.go."""
 RULE = ("structured stream: random envelopes (empty/ascii/multi-byte/invalid UTF-8 strings, payload sizes straddling varint widths) "
         "through NewRequest/NewResponse+MarshalProtoMessage; malformed stream: foreign-encoder frames (any field order, duplicates, both oneof "
-        "members, unknown fields of every wire type, groups) and mutations (truncate, bit flips, inserts) through UnmarshalProtoMessage; "
+        "members, unknown fields of every wire type, groups), mutations (truncate, bit flips, inserts) and complete valid envelopes followed by a "
+        "malformed rest (truncated tag/field, illegal wire type, field number 0, unterminated or overlong varint, bad group, non-UTF-8 string) "
+        "through UnmarshalProtoMessage; the acceptance verdict is also checked where it is acted on: frame sequences rich in 'valid envelope + "
+        "malformed rest' frames are fed to a real Server and a real ClientConn over fake transports (child processes) and per frame the handler "
+        "log, the frames written and the pending table are compared with Dispatch.process (a rejected frame has no effect); "
         "distinct = distinct (class, frame); all cases non-trivial")
-ASSUMPTIONS = ["protobuf-go is the library under test for this property; lengths < 2^64 (true of every Go slice)"]
+ASSUMPTIONS = ["protobuf-go is the library under test for this property; lengths < 2^64 (true of every Go slice)",
+               "endpoint part: quiescence after a frame = the read loop has taken the next (barrier) frame and the goroutine count is back at its baseline (1.5 s limit)"]
+EP_FILES = ["root/fake_test.go", "root/c16_test.go", "root/c07_test.go"]
 
 
 def run(ctx):
@@ -13,3 +19,13 @@ def run(ctx):
         ctx.fail("harness:C16", "the C16 harness did not run to completion on this tree: " + out[-800:], kind="correspondence", no_input=True)
         return
     ctx.model("Run.RunC16", recs, shard=250)
+    # the endpoints act on the codec's verdict
+    rc, out, recs2 = ctx.go("", "^TestVerifC16Endpoints$", EP_FILES, "wsrpc", timeout=300)
+    ctx.records += recs2
+    if rc != 0 or not recs2:
+        ctx.fail("harness:C16-endpoints", "the C16 endpoint harness did not run to completion on this tree: " + out[-800:], kind="correspondence", no_input=True)
+        return
+    for r in recs2:
+        if r.get("fail"):
+            ctx.fail(r["fail"], "endpoint monitor '%s' failed: %s" % (r["fail"], str(r.get("info"))[:400]), case=r)
+    ctx.model("Run.RunC07", recs2, shard=300)
